@@ -125,14 +125,92 @@ def shape_obligations(rep):
     _emit(rep, 'C11.shape.from_query', v, f'{QP}:QueryPlanner.from_query', 'push-down succeeded => the plan is returned at once (exactly the one fetch step)')
 
 
+def info_obligations(rep):
+    """get_query_info: how table references are classified. A reference to a CTE of the query (whatever its alias or spelling) is not a mindsdb
+    entity; a table qualified by an integration counts for that integration; anything else in the default project is a mindsdb entity."""
+    from mindsdb_sql.parser.ast import Identifier, Select, CommonTableExpression
+    from mindsdb_sql.planner.query_planner import QueryPlanner
+    fn = f'{QP}:QueryPlanner.get_query_info'
+
+    def ident(ex, name, parts, alias=None):
+        t = SymObj({Identifier}, name, prov='param')
+        t.known_not_none = True
+        t.closed = True
+        al = None
+        if alias:
+            al = SymObj({Identifier}, name + '.alias', prov='param')
+            al.closed = True
+            al.copyable = True
+            al.fields.update(alias=None, parentheses=False, parts=ex.param_container([alias]))
+        t.fields.update(alias=al, parentheses=False, parts=ex.param_container(list(parts)))
+        return t
+
+    def make_args(ex):
+        planner = SymObj({QueryPlanner}, 'planner', prov='param')
+        planner.known_not_none = True
+        planner.fields.update(default_namespace='mindsdb', databases=['int1', 'int2', 'mindsdb'], projects=['mindsdb'], integrations={'int1': {}, 'int2': {}})
+        planner.fields['is_predictor'] = Stub(lambda ex_, a, k: False, 'is_predictor')
+        refs = dict(cte_plain=ident(ex, 'cte_plain', ['c']), cte_aliased=ident(ex, 'cte_aliased', ['c'], alias='x'), cte_quoted=ident(ex, 'cte_quoted', ['my c']),
+                    cte_quoted_aliased=ident(ex, 'cte_quoted_aliased', ['my c'], alias='y'), view=ident(ex, 'view', ['v'], alias='z'),
+                    qualified_view=ident(ex, 'qualified_view', ['mindsdb', 'c']), int_table=ident(ex, 'int_table', ['int1', 'tbl1'], alias='t'), int_cte_name=ident(ex, 'int_cte_name', ['int2', 'c']))
+        ctes = []
+        for nm in ('c', 'my c'):
+            cte = SymObj({CommonTableExpression}, f'cte[{nm}]', prov='param')
+            cte.known_not_none = True
+            cte.fields.update(name=ident(ex, f'cte_name[{nm}]', [nm]), query=SymObj(None, 'cte_query', prov='param'), columns=None, alias=None, parentheses=False)
+            ctes.append(cte)
+        q = SymObj({Select}, 'query', prov='param')
+        q.known_not_none = True
+        q.fields['cte'] = ex.param_container(ctes)
+
+        def traversal(ex_, a, k, node_=None):
+            for r in refs.values():
+                ex_.call(a[1], [r], {'is_table': True, 'is_target': False, 'parent_query': q})
+            return None
+        ex.stubs[('mindsdb_sql.planner.utils', 'query_traversal')] = traversal
+        for _nm in ('to_string', 'maybe_add_alias', 'maybe_add_parentheses', 'get_string', 'parts_to_str'):
+            ex.recursion_ok[_nm] = 4          # an identifier prints its alias, which is an identifier (depth 2)
+        ex.path_state.update(refs=refs)
+        return [planner, q], {}
+
+    def post(ex, o):
+        if o.kind != 'return':
+            return f'raises {getattr(o.value, "__name__", o.value)}'
+        info, refs = o.value, o.state['refs']
+        if not isinstance(info, dict):
+            return f'returns {info!r}'
+        name_of = {id(v): k for k, v in refs.items()}
+        got = sorted(name_of.get(id(e), repr(e)) for e in info.get('mdb_entities', []))
+        want = ['qualified_view', 'view']
+        if got != want:
+            wrong = sorted(set(got) ^ set(want))
+            return f'mindsdb entities are {got}, expected {want}: {wrong} misclassified (a reference to a CTE is a project object only if it is qualified by the project; alias and quoting do not matter)'
+        ints = info.get('integrations')
+        if not isinstance(ints, set) or ints != {'int1', 'int2'}:
+            return f'integrations are {ints!r}, expected int1 and int2'
+        return None
+    v = pysym.verify(QP, 'QueryPlanner.get_query_info', make_args, post)
+    _emit(rep, 'C11.info.cte-references', v, fn,
+          'ensures mdb_entities = table references resolving to a project minus unqualified references to CTEs of the query (any alias / spelling); integrations = the resolved integrations',
+          replay=lambda: replay_shape())
+
+
 def replay_shape():
     from mindsdb_sql import parse_sql
     from mindsdb_sql.planner import plan_query
     from mindsdb_sql.planner.steps import FetchDataframeStep
-    sql = 'SELECT a, b FROM int1.tbl1 WHERE a > 1 ORDER BY b LIMIT 2'
-    p = plan_query(parse_sql(sql), integrations=['int1', 'int2'], default_namespace='mindsdb', predictor_metadata=[])
-    ok = len(p.steps) == 1 and isinstance(p.steps[0], FetchDataframeStep) and p.steps[0].integration == 'int1'
-    return {'input': sql, 'dialect': 'mindsdb', 'fires': not ok, 'observed': repr(p.steps)[:200], 'expected': 'one FetchDataframeStep for int1'}
+    last = None
+    for sql in ('SELECT a, b FROM int1.tbl1 WHERE a > 1 ORDER BY b LIMIT 2', 'WITH c AS (SELECT a, b FROM int1.tbl1 WHERE a > 0) SELECT x.a FROM c AS x WHERE x.b > 1',
+                'WITH `my c` AS (SELECT a FROM int1.tbl1) SELECT a FROM `my c`', 'SELECT a FROM int1.tbl1 EXCEPT SELECT a FROM int1.tbl2', 'SELECT a FROM int1.tbl1 INTERSECT SELECT a FROM int1.tbl2'):
+        try:
+            p = plan_query(parse_sql(sql), integrations=['int1', 'int2'], default_namespace='mindsdb', predictor_metadata=[])
+        except Exception as e:
+            return {'input': sql, 'dialect': 'mindsdb', 'fires': True, 'observed': f'{type(e).__name__}: {e}'[:150], 'expected': 'one FetchDataframeStep for int1'}
+        ok = len(p.steps) == 1 and isinstance(p.steps[0], FetchDataframeStep) and p.steps[0].integration == 'int1'
+        last = {'input': sql, 'dialect': 'mindsdb', 'fires': not ok, 'observed': repr(p.steps)[:200], 'expected': 'one FetchDataframeStep for int1'}
+        if not ok:
+            return last
+    return last
 
 
 def edit_obligations(rep):
@@ -230,6 +308,16 @@ QUERIES = [
     'SELECT int1.int1 FROM int1.tbl3 AS int1 ORDER BY 1',
     'SELECT x.a FROM (SELECT a FROM int1.tbl1) AS x ORDER BY 1',
     'SELECT a + 1, sum(b) OVER (PARTITION BY a) FROM int1.tbl1 ORDER BY 1, 2',
+    # CTEs referenced through an alias, with a name that needs quoting, twice, and next to a real table; other set operations
+    'WITH c AS (SELECT a, b FROM int1.tbl1 WHERE a > 0) SELECT x.a FROM c AS x WHERE x.b > 1 ORDER BY 1',
+    'WITH `my c` AS (SELECT a FROM int1.tbl1) SELECT a FROM `my c` ORDER BY 1',
+    'WITH c AS (SELECT id, a FROM int1.tbl1) SELECT x.a, y.a FROM c AS x JOIN c AS y ON x.id = y.id ORDER BY 1, 2',
+    'WITH c AS (SELECT id, a FROM int1.tbl1) SELECT x.a, t2.b FROM c AS x JOIN int1.tbl2 AS t2 ON x.id = t2.id ORDER BY 1, 2',
+    'WITH c AS (SELECT a FROM int1.tbl1), d AS (SELECT a FROM int1.tbl2) SELECT c.a FROM c JOIN d ON c.a = d.a ORDER BY 1',
+    'SELECT a FROM int1.tbl1 EXCEPT SELECT a FROM int1.tbl2 ORDER BY a',
+    'SELECT a FROM int1.tbl1 INTERSECT SELECT a FROM int1.tbl2 ORDER BY a',
+    'SELECT a FROM int1.tbl1 UNION ALL SELECT a FROM int1.tbl2 ORDER BY a',
+    'SELECT DISTINCT a FROM int1.tbl1 WHERE b IS NOT NULL ORDER BY a LIMIT 2',
 ]
 
 
@@ -262,10 +350,10 @@ def bounded(rep, tier):
         try:
             p = plan_query(parse_sql(sql), integrations=['int1', 'int2'], default_namespace='mindsdb', predictor_metadata=[])
         except Exception as e:
-            rep.add_bounded(Bounded(cid, False, sql, f'planner raises {type(e).__name__}: {e}'[:150], 'one fetch step', bound='13 queries'))
+            rep.add_bounded(Bounded(cid, False, sql, f'planner raises {type(e).__name__}: {e}'[:150], 'one fetch step', bound=f'{len(QUERIES)} queries'))
             continue
         if not (len(p.steps) == 1 and isinstance(p.steps[0], FetchDataframeStep) and p.steps[0].integration == 'int1'):
-            rep.add_bounded(Bounded(cid, False, sql, f'plan is {p.steps!r}'[:200], 'exactly one FetchDataframeStep for int1', bound='13 queries'))
+            rep.add_bounded(Bounded(cid, False, sql, f'plan is {p.steps!r}'[:200], 'exactly one FetchDataframeStep for int1', bound=f'{len(QUERIES)} queries'))
             continue
         pushed = str(p.steps[0].query)
         try:
@@ -278,10 +366,10 @@ def bounded(rep, tier):
             got = cur.fetchall()
             got_cols = [d[0] for d in cur.description]
         except Exception as e:
-            rep.add_bounded(Bounded(cid, False, sql, f'pushed text `{pushed}` fails on the integration: {e}'[:200], f'{want}', bound='13 queries'))
+            rep.add_bounded(Bounded(cid, False, sql, f'pushed text `{pushed}` fails on the integration: {e}'[:200], f'{want}', bound=f'{len(QUERIES)} queries'))
             continue
         if got != want:
-            rep.add_bounded(Bounded(cid, False, sql, f'pushed text `{pushed}` returns {got}'[:250], f'{want}', bound='13 queries'))
+            rep.add_bounded(Bounded(cid, False, sql, f'pushed text `{pushed}` returns {got}'[:250], f'{want}', bound=f'{len(QUERIES)} queries'))
     try:
         for sql, msg in plans.reuse_history_problems():
             rep.add_bounded(Bounded('C11.bounded.planner-reuse', False, sql, msg, 'the plan of the statement planned alone', bound='re-use sequences'))
@@ -322,6 +410,7 @@ def check(rep, tier):
     rep.assume('C13 coverage of identifiers by the walker', 'C10.strip for the qualifier edit', 'meaning preservation of the edit set under shadowing is NOT decided (bounded only)')
     rep.trust('pysym executor', 'sqlite3 as reference engine (bounded stand-in)')
     shape_obligations(rep)
+    info_obligations(rep)
     edit_obligations(rep)
     bounded(rep, tier)
     rep.notes.append('Plan shape and edit set proved; semantic preservation bounded.')
